@@ -11,6 +11,13 @@ import ModVerif.Model.Semver
 namespace ModVerif.Module
 open ModVerif
 
+/-- decidable equality of results, so that concrete instances close by `decide` -/
+instance instDecidableEqExcept {ε α : Type} [DecidableEq ε] [DecidableEq α] : DecidableEq (Except ε α)
+  | .ok a, .ok b => if h : a = b then isTrue (by rw [h]) else isFalse (fun e => h (by injection e))
+  | .error a, .error b => if h : a = b then isTrue (by rw [h]) else isFalse (fun e => h (by injection e))
+  | .ok _, .error _ => isFalse (fun e => by injection e)
+  | .error _, .ok _ => isFalse (fun e => by injection e)
+
 /-- pathKind -/
 inductive Kind where
   | module | import_ | file
